@@ -1223,6 +1223,16 @@ class Evaluator:
             return gamma(b[1], self.compare(op, a, b[2]), self.compare(op, a, b[3]))
         if isinstance(a, int) and isinstance(b, int):
             return {"==": a == b, "!=": a != b, "<": a < b, ">": a > b, "<=": a <= b, ">=": a >= b}[op]
+        if isinstance(a, Obj) and isinstance(b, Obj) and a.type == b.type and a.type in self.F.records:
+            # objects of a library class compared inside a standard template (std::tie(...) == std::tie(...), std::equal,
+            # std::less): the class's own operator does the comparison
+            f = self.class_operator(op, a.type)
+            if f is None:
+                raise Inconclusive("no operator%s for %s" % (op, a.type))
+            la, lb = self.new_loc(a, "cmp"), self.new_loc(b, "cmp")
+            if f["kind"] == "method":
+                return self.rv(self._invoke(f, la, [lb]))
+            return self.rv(self._invoke(f, None, [la, lb]))
         if isinstance(a, tuple) and isinstance(b, tuple) and a and b:
             if a[0] == "enum" and b[0] == "enum":
                 if op == "==":
@@ -1245,6 +1255,23 @@ class Evaluator:
         if isinstance(b, int) and not isinstance(a, int) and not _is_intterm(a):
             b = C(b)
         return ("cmp", op, a, b)
+
+    def class_operator(self, op, tname):
+        cache = self.__dict__.setdefault("_class_ops", {})
+        if (op, tname) not in cache:
+            hit = None
+            for f in self.F.fns.values():
+                if f.get("op") != op or "body" not in f:
+                    continue
+                pts = [strip_cvref(t) for t in self.F.param_types(f)]
+                if f["kind"] == "function" and pts == [tname, tname]:
+                    hit = f
+                    break
+                if f["kind"] == "method" and pts == [tname] and self.F.T(f.get("parent", -1)) == tname:
+                    hit = f
+                    break
+            cache[(op, tname)] = hit
+        return cache[(op, tname)]
 
     def enum_value(self, en):
         for ec in self.F.enums[en[1]]["enumerators"]:
